@@ -147,21 +147,32 @@ def St.connConnect (s : St) (c : Nat) (immFail : Bool) : St :=
   | none => s
   | some k => s.setConn c { k with state := if immFail then .disconnected else .connecting, lastRead := s.now }
 
+/-- `node in self._connections and self._connections[node].state != DISCONNECTED`. -/
+def St.regLive (s : St) (n : NodeId) : Bool :=
+  match s.regConn n with
+  | some (_, k) => k.state != CState.disconnected
+  | none => false
+
+/-- `node in self._lastConnectAttempt and monotonicTime() - self._lastConnectAttempt[node] < connectionRetryTime`. -/
+def St.recent (s : St) (a : Nat) : Bool :=
+  match lookup a s.lastAttempt with
+  | some t => decide (s.now - t < s.retry)
+  | none => false
+
 /-- `_connectIfNecessarySingle(node)`, node = `TCPNode` numbered `a`. -/
 def St.connectSingle (s : St) (a : Nat) (prevent immFail : Bool) : St :=
-  let live := match s.regConn (NodeId.tcp a) with
-    | some (_, k) => k.state != CState.disconnected
-    | none => false
-  if live then s
+  if s.regLive (NodeId.tcp a) then s
   else if !s.shouldConnect a prevent then s
   else match lookup (NodeId.tcp a) s.reg with
     | none => s.emit .raised                       -- `assert node in self._connections`
     | some c =>
-      let recent := match lookup a s.lastAttempt with
-        | some t => decide (s.now - t < s.retry)
-        | none => false
-      if recent then s
+      if s.recent a then s
       else ({ s with lastAttempt := setKey a s.now s.lastAttempt }).connConnect c immFail
+
+/-- `node in self._nodes` for the node found by `_connToNode`. -/
+def St.isMember (s : St) : NodeId → Bool
+  | .tcp a => decide (a ∈ s.nodes)
+  | .ro _ => false
 
 /-- `_onDisconnected(conn)`. `prevent`: the node currently in `_preventConnectNodes` (set by `dropNode` and by the
 D52 repair around the `disconnect()` they perform). -/
@@ -170,10 +181,7 @@ def St.onDisconnected (s : St) (c : Nat) (prevent : Option NodeId) (immFail : Bo
   match connToNode c s.reg with
   | none => s
   | some n =>
-    let member := match n with
-      | .tcp a => decide (a ∈ s.nodes)
-      | .ro _ => false
-    if member then
+    if s.isMember n then
       let s := { s with view := eraseAll n s.view }.emit (.nodeDisc n)
       match n with
       | .tcp a => s.connectSingle a (decide (prevent = some n)) immFail
